@@ -53,6 +53,7 @@ func plan(seed int64, tier string) []vrt.Case {
 		cs = append(cs, vrt.Case{ID: fmt.Sprintf("%s-%d", kind, idx), Params: vrt.MustParams(params{Kind: kind, Seed: seed, Idx: idx, N: n}), TimeoutS: 900})
 	}
 	add("dispatch", 0, 0)
+	add("progress", 0, 0)
 	nT, nR, per, nH, perH := 16, 16, 4000, 20, 10
 	if tier == "thorough" {
 		nT, nR, per, nH, perH = 64, 64, 40000, 100, 50
@@ -107,6 +108,8 @@ func run(cs vrt.Case) vrt.Obs {
 		runRaw(c, r, p.N)
 	case "dispatch":
 		vrt.Guard(&o, func() { runDispatch(c) })
+	case "progress":
+		vrt.Guard(&o, func() { runProgress(c) })
 	case "hist":
 		for i := 0; i < p.N; i++ {
 			vrt.Guard(&o, func() { runHistory(c, r, i) })
